@@ -266,12 +266,14 @@ PROPS['C05'] = {
              'distinct (scripts, sequence of context switches).'),
     'min_nontrivial': [500, 5000],
     'require_classes': ['scheduling_programs:resumed_from_ready_queue', 'scheduling_programs:direct_transfers', 'scheduling_programs:programs_with_3plus_queued'],
-    'single_thread_scenarios': ('scheduling_programs', 'pool_stop_from_coroutine'),
+    'single_thread_scenarios': ('scheduling_programs', 'pool_stop_from_coroutine', 'bare_coroutine_programs'),
     'jobs': [
         J('prog_asan', 'c05.cpp', 'asan', [60000, 3000000], scenario='scheduling_programs', threads=1),
         J('prog_rel', 'c05.cpp', 'rel', [100000, 6000000], scenario='scheduling_programs', threads=1),
         J('poolstop_asan', 'c05.cpp', 'asan', [40000, 800000], scenario='pool_stop_from_coroutine', threads=1),
         J('poolstop_rel', 'c05.cpp', 'rel', [80000, 2000000], scenario='pool_stop_from_coroutine', threads=1),
+        J('bare_asan', 'c05.cpp', 'asan', [30000, 1500000], scenario='bare_coroutine_programs', threads=1),
+        J('bare_rel', 'c05.cpp', 'rel', [60000, 3000000], scenario='bare_coroutine_programs', threads=1),
         J('prog_casan', 'c05.cpp', 'casan', [0, 1500000], scenario='scheduling_programs', threads=1, tiers=(T,)),
         J('prog_crel', 'c05.cpp', 'crel', [0, 3000000], scenario='scheduling_programs', threads=1, tiers=(T,)),
     ],
@@ -416,10 +418,11 @@ PROPS['C15'] = {
              'gap class, values received per listener).'),
     'min_nontrivial': [300, 2000],
     'require_classes': ['signal_mt:listeners_that_joined_midway', 'signal_mt:listeners_that_saw_all'],
-    'single_thread_scenarios': ('signal_history',),
+    'single_thread_scenarios': ('signal_history', 'signal_string_values'),
     'jobs': [
         J('hist_asan', 'c15.cpp', 'asan', [40000, 2000000], scenario='signal_history', threads=1),
         J('mt_asan', 'c15.cpp', 'asan', [40000, 2000000], scenario='signal_mt'),
+        J('str_asan', 'c15.cpp', 'asan', [30000, 1000000], scenario='signal_string_values', threads=1),
         J('mt_rel', 'c15.cpp', 'rel', [150000, 8000000], scenario='signal_mt'),
         J('mt_crel', 'c15.cpp', 'crel', [0, 3000000], scenario='signal_mt', tiers=(T,)),
         J('hist_casan', 'c15.cpp', 'casan', [0, 800000], scenario='signal_history', threads=1, tiers=(T,)),
